@@ -803,6 +803,9 @@ class RawAlgorithmsMixIn:
             raise NotImplementedError('should implement that')
         y_data = out
         D, P = x_data.shape[:2]
+        if numpy.iscomplexobj(x_data):
+            # numpy.sign(z) = z/|z| is not piecewise constant
+            return cls._truediv(x_data, cls._absolute(x_data).astype(x_data.dtype), out=y_data)
         y_data[0] = numpy.sign(x_data[0])
         y_data[1:].fill(0)
         return y_data
@@ -811,6 +814,8 @@ class RawAlgorithmsMixIn:
     def _pb_sign(cls, ybar_data, x_data, y_data, out = None):
         if out is None:
             raise NotImplementedError('should implement that')
+        if numpy.iscomplexobj(x_data):
+            raise NotImplementedError('pullback of sign(z) = z/|z| for complex z')
         xbar_data = out
         tmp = numpy.zeros_like(x_data)
         cls._amul(ybar_data, tmp, xbar_data)
